@@ -264,4 +264,23 @@ PROPS = {
                      "newClientState returning an error (scan then dereferences a nil clientState) is not modelled and not generated"],
         "assumptions": [],
     },
+    "C15": {
+        "required_theorems": ["c15_replace_consistent", "c15_preserve_sends_same", "c15_marker_top_only", "c15_blank_key_restored", "c15_edge_points_kept",
+                              "c15_exports_live_only", "gen_export_pinned", "gen_export_constants_pinned"],
+        "n": {"quick": 500, "thorough": 10000},
+        "thorough_seeds": 3,
+        "rule": "two in-process instances A and B; per case a tree of 1-6 nodes (5 node types) under a fresh group on A, sometimes with a mirror inside the subtree, a deleted child, a deleted-then-undeleted "
+                "child (explicit tombstone 0), an outside node; 0-3 points per node (types description/value/level/tag/nodeID/note, keys ''/0/1/a, point tombstones 0-2, origins) with 34 plain and "
+                "YAML-significant texts (colon, hash, quotes, Unicode, leading/trailing space, true/yes/No, numbers, dates, braces, brackets, backslash, * & ! % @ ` | > ? and more), 16 values incl. 1e6, 2e7, "
+                "1e15, 1e21, 1e-7, 5e-324, MaxFloat64, -0, +-Inf; node-id points referring to nodes inside, outside and to nothing; extra edge points; 1 case in 4 also draws from the 11 texts of the open "
+                "go-yaml finding. The top node or its first child is exported with client.ExportNodes and imported with client.ImportNodes under a fresh group on A or B with new or preserved ids. "
+                "Observation = the imported subtree in pre-order (depth, id, type, parent, points, edge points; ids renamed by first appearance; times/origins not compared; tombstone-0 edge points = none). "
+                "Oracle = the exported tree of the source state, renamed, marker on the top description; distinct = distinct case line",
+        "trusted": ["github.com/goccy/go-yaml v1.11.2 Marshal/Unmarshal of the export structure (parameter: the model hands the tree from export to import; every case goes through the real YAML text)",
+                    "github.com/google/uuid: new ids are pairwise different and not blank (hypotheses hinj, hne of c15_replace_consistent)", "modernc SQLite as in C05", "embedded nats-server"],
+        "modelled": ["client/node.go ExportNodes/exportNodesHelper, ImportNodes, checkIDs, ReplaceIDs, SendNode modelled by hand on the store model (Siot/Model/Export.lean); a tree is a pre-order list with depths; shape re-extracted every run (gen_export_pinned)",
+                     "import under 'root' (replacing the root node) is not modelled and not generated", "time stamps (not exported) and origins are outside the comparison"],
+        "assumptions": [],
+        "partial": "the theorems cover the tree transformations (id replacement, check, marker, noise reduction, liveness of exported nodes); that sending the prepared nodes to the store and reading them back yields the same tree is established by the correspondence run (model = store model of C01/C05), not by a theorem",
+    },
 }
